@@ -64,11 +64,22 @@ void GlobalGraph::edgeMustExist_(const GlobalGraph::Edge& edge, string name) con
 }
 
 
+void GlobalGraph::relationMustNotExist_(const GlobalGraph::Node& nodeA, const GlobalGraph::Node& nodeB) const
+{
+  // the node structure holds one edge per (ordered) pair of nodes: a second
+  // one would be written to the edge structure only
+  // (in an undirected graph both directions are stored, so this covers B - A too)
+  nodeStructureType::const_iterator nodeARow = nodeStructure_.find(nodeA);
+  if (nodeARow != nodeStructure_.end() && nodeARow->second.first.find(nodeB) != nodeARow->second.first.end())
+    throw Exception("GlobalGraph::link : nodes " + TextTools::toString(nodeA) + " and " + TextTools::toString(nodeB) + " are already linked.");
+}
+
 GlobalGraph::Edge GlobalGraph::link(Graph::NodeId nodeA, Graph::NodeId nodeB)
 {
   // the nodes have to exist
   nodeMustExist_(nodeA, "first node");
   nodeMustExist_(nodeB, "second node");
+  relationMustNotExist_(nodeA, nodeB);
 
   // which ID is available?
   GlobalGraph::Edge edgeID = highestEdgeID_++;
@@ -91,6 +102,7 @@ void GlobalGraph::link(Graph::NodeId nodeA, Graph::NodeId nodeB, GlobalGraph::Ed
   // the nodes have to exist
   nodeMustExist_(nodeA, "first node");
   nodeMustExist_(nodeB, "second node");
+  relationMustNotExist_(nodeA, nodeB);
 
   // writing the new relation to the structure
   linkInNodeStructure_(nodeA, nodeB, edgeID);
